@@ -137,7 +137,10 @@ fn eval(cmd: &Value) -> Value {
             };
             let (parts, _) = req.into_parts();
             let data = crate::common::hyper_client::as_sig_input(parts, hyper::body::Bytes::from(body));
-            json!({"canon": hex::encode(data)})
+            match data.sig_bytes() {
+                Some(d) => json!({"canon": hex::encode(d)}),
+                None => json!({"error": "as_sig_input: no string-to-sign"}),
+            }
         }
         // builder route: the agent's own host calls
         "build_request" => {
@@ -173,12 +176,27 @@ fn eval(cmd: &Value) -> Value {
                         parts,
                         hyper::body::Bytes::from(body.clone().unwrap_or_default()),
                     );
-                    json!({"method": method, "target": target, "headers": hs, "canon_parts_route": hex::encode(canon)})
+                    json!({"method": method, "target": target, "headers": hs, "canon_parts_route": hex::encode(canon.sig_bytes().unwrap_or_default())})
                 }
                 Err(e) => json!({"error": format!("{}", e)}),
             }
         }
         other => json!({"error": format!("unknown kind {}", other)}),
+    }
+}
+
+/// as_sig_input returns the string-to-sign; a tree in which it reports an error instead is still a tree the drivers build on
+trait SigBytes {
+    fn sig_bytes(self) -> Option<Vec<u8>>;
+}
+impl SigBytes for Vec<u8> {
+    fn sig_bytes(self) -> Option<Vec<u8>> {
+        Some(self)
+    }
+}
+impl<E> SigBytes for std::result::Result<Vec<u8>, E> {
+    fn sig_bytes(self) -> Option<Vec<u8>> {
+        self.ok()
     }
 }
 
